@@ -69,6 +69,7 @@ type Report struct {
 	SyncFiles   []string          `json:"sync_redirected_files"`
 	MutatedVars []string          `json:"mutated_globals"`
 	ResetVars   []string          `json:"reset_globals"`
+	ExtMutated  []string          `json:"globals_written_from_another_package"`
 	SkippedSync int               `json:"uses_that_are_sync_calls_themselves"`
 	Overlay     map[string]string `json:"-"`
 }
@@ -131,6 +132,13 @@ func main() {
 
 	rep := &Report{Repo: absRepo, Packages: pkgs, Overlay: map[string]string{}}
 	siteID := 0
+	targets := map[string]bool{}
+	for _, p := range pkgs {
+		targets[p] = true
+	}
+	// pass 1: which package-level variables of the target packages are written from ANOTHER target
+	// package (e.g. a renderer assigning canvas.Tolerance)
+	ext := map[string]bool{}
 	for pi, path := range pkgs {
 		lp := byPath[path]
 		if lp == nil {
@@ -139,7 +147,21 @@ func main() {
 		if lp.Error != nil {
 			fatal("package %s: %s", path, lp.Error.Err)
 		}
-		instrumentPackage(fset, imp, lp, pi, *out, rep, &siteID)
+		instrumentPackage(fset, imp, lp, pi, *out, nil, &siteID, targets, ext)
+	}
+	for k := range ext {
+		rep.ExtMutated = append(rep.ExtMutated, k)
+	}
+	sort.Strings(rep.ExtMutated)
+	for pi, path := range pkgs {
+		lp := byPath[path]
+		if lp == nil {
+			fatal("package %s not found", path)
+		}
+		if lp.Error != nil {
+			fatal("package %s: %s", path, lp.Error.Err)
+		}
+		instrumentPackage(fset, imp, lp, pi, *out, rep, &siteID, targets, ext)
 	}
 
 	ov := struct{ Replace map[string]string }{rep.Overlay}
@@ -162,7 +184,12 @@ func goTool() string {
 	return "go1.26.8"
 }
 
-func instrumentPackage(fset *token.FileSet, imp types.Importer, lp *listPkg, pi int, out string, rep *Report, siteID *int) {
+// instrumentPackage with rep == nil only collects cross-package writes into ext.
+func instrumentPackage(fset *token.FileSet, imp types.Importer, lp *listPkg, pi int, out string, rep *Report, siteID *int, targets, ext map[string]bool) {
+	collectOnly := rep == nil
+	if collectOnly {
+		rep = &Report{Overlay: map[string]string{}}
+	}
 	var files []*ast.File
 	var names []string
 	srcs := map[string][]byte{}
@@ -233,9 +260,12 @@ func instrumentPackage(fset *token.FileSet, imp types.Importer, lp *listPkg, pi 
 				}
 				return nil
 			case *ast.SelectorExpr:
-				// pkg.Var of another package is not ours
+				// pkg.Var of another package is not ours, but remember that it is written
 				if id, ok := x.X.(*ast.Ident); ok {
 					if _, isPkg := info.Uses[id].(*types.PkgName); isPkg {
+						if v, ok := info.Uses[x.Sel].(*types.Var); ok && v.Pkg() != nil && targets[v.Pkg().Path()] && v.Parent() == v.Pkg().Scope() {
+							return v // a variable of another target package
+						}
 						return nil
 					}
 				}
@@ -254,23 +284,30 @@ func instrumentPackage(fset *token.FileSet, imp types.Importer, lp *listPkg, pi 
 		}
 	}
 	mutated := map[types.Object]bool{}
+	mark := func(g types.Object) {
+		if _, own := globals[g]; own {
+			mutated[g] = true
+		} else if g.Pkg() != nil {
+			ext[g.Pkg().Path()+"."+g.Name()] = true
+		}
+	}
 	for _, f := range files {
 		ast.Inspect(f, func(n ast.Node) bool {
 			switch x := n.(type) {
 			case *ast.AssignStmt:
 				for _, l := range x.Lhs {
 					if g := rootGlobal(l); g != nil {
-						mutated[g] = true
+						mark(g)
 					}
 				}
 			case *ast.IncDecStmt:
 				if g := rootGlobal(x.X); g != nil {
-					mutated[g] = true
+					mark(g)
 				}
 			case *ast.UnaryExpr:
 				if x.Op == token.AND {
 					if g := rootGlobal(x.X); g != nil {
-						mutated[g] = true
+						mark(g)
 					}
 				}
 			case *ast.RangeStmt:
@@ -278,7 +315,7 @@ func instrumentPackage(fset *token.FileSet, imp types.Importer, lp *listPkg, pi 
 					for _, l := range []ast.Expr{x.Key, x.Value} {
 						if l != nil {
 							if g := rootGlobal(l); g != nil {
-								mutated[g] = true
+								mark(g)
 							}
 						}
 					}
@@ -291,7 +328,7 @@ func instrumentPackage(fset *token.FileSet, imp types.Importer, lp *listPkg, pi 
 							if sig, ok := fn.Type().(*types.Signature); ok && sig.Recv() != nil {
 								if _, ptr := sig.Recv().Type().(*types.Pointer); ptr {
 									if _, isPtr := g.Type().Underlying().(*types.Pointer); !isPtr {
-										mutated[g] = true
+										mark(g)
 									}
 								}
 							}
@@ -301,6 +338,20 @@ func instrumentPackage(fset *token.FileSet, imp types.Importer, lp *listPkg, pi 
 			}
 			return true
 		})
+	}
+
+	for _, g := range globalOrder {
+		if ext[lp.ImportPath+"."+g.Name()] {
+			mutated[g] = true
+		}
+	}
+	if collectOnly {
+		return
+	}
+	// uses of other target packages' variables that are written from somewhere
+	foreignMutated := func(obj types.Object) bool {
+		v, ok := obj.(*types.Var)
+		return ok && v.Pkg() != nil && v.Pkg().Path() != lp.ImportPath && targets[v.Pkg().Path()] && v.Parent() == v.Pkg().Scope() && ext[v.Pkg().Path()+"."+v.Name()]
 	}
 
 	usesSync := func(vs *ast.ValueSpec) bool {
@@ -435,7 +486,7 @@ func instrumentPackage(fset *token.FileSet, imp types.Importer, lp *listPkg, pi 
 				return true
 			}
 			obj := info.Uses[id]
-			if obj == nil || !mutated[obj] {
+			if obj == nil || !(mutated[obj] || foreignMutated(obj)) {
 				return true
 			}
 			st := stmtOf(id)
@@ -509,6 +560,12 @@ func instrumentPackage(fset *token.FileSet, imp types.Importer, lp *listPkg, pi 
 		}
 		name := g.Name()
 		idx := globalIdx[g]
+		if n, ok := g.Type().(*types.Named); ok && n.Obj().Pkg() != nil && n.Obj().Pkg().Path() == "sync" {
+			// a lock / once / map / pool held by value: a fresh process has the zero value
+			fmt.Fprintf(&body, "\t%s = *new(%s)\n", name, types.TypeString(g.Type(), qualifier(pkg)))
+			rep.ResetVars = append(rep.ResetVars, pkg.Name()+"."+name)
+			continue
+		}
 		if at := atomicStoreType(g.Type(), pkg); at != "" {
 			// sync/atomic value: back to zero through its own API
 			fmt.Fprintf(&body, "\t%s.Store(*new(%s))\n", name, at)
@@ -522,14 +579,17 @@ func instrumentPackage(fset *token.FileSet, imp types.Importer, lp *listPkg, pi 
 			expr := editedRange(srcs[fn], fileEdits[fn], int(vs.Values[idx].Pos())-b, int(vs.Values[idx].End())-b)
 			if containsSyncType(g.Type()) && !isFuncOrPtr(g.Type()) {
 				// cannot copy a lock: reset the other fields one by one
+				// (from a fresh evaluation of the initialiser, whose own locks are simply not copied)
 				if st, ok := g.Type().Underlying().(*types.Struct); ok {
+					fmt.Fprintf(&body, "\t{\n\t\tfresh := %s\n", expr)
 					for i := 0; i < st.NumFields(); i++ {
 						fld := st.Field(i)
 						if containsSyncType(fld.Type()) || !(fld.Exported() || fld.Pkg() == pkg) || fld.Name() == "_" {
 							continue
 						}
-						fmt.Fprintf(&body, "\t%s.%s = *new(%s)\n", name, fld.Name(), types.TypeString(fld.Type(), qualifier(pkg)))
+						fmt.Fprintf(&body, "\t\t%s.%s = fresh.%s\n", name, fld.Name(), fld.Name())
 					}
+					fmt.Fprintf(&body, "\t\t_ = &fresh\n\t}\n")
 					rep.ResetVars = append(rep.ResetVars, pkg.Name()+"."+name)
 				}
 				continue
